@@ -15,20 +15,24 @@ open GilVerif.Gen.C07
 inductive Ch where
   | u8 | u16 | u32 | i8 | i16 | i32
   | packed (n : Nat)            -- packed_channel_value<n>, 1 ≤ n ≤ 32
+  | scoped (bits : Nat) (signed : Bool) (lo hi : Int)   -- scoped_channel_value<base, lo, hi> (invert only)
   deriving Repr, DecidableEq
 
 def Ch.parse (s : String) : Option Ch :=
   match s with
   | "u8" => some .u8 | "u16" => some .u16 | "u32" => some .u32
   | "i8" => some .i8 | "i16" => some .i16 | "i32" => some .i32
+  | "s8" => some (.scoped 8 false 16 235) | "s16" => some (.scoped 16 false 1000 60000)
+  | "si16" => some (.scoped 16 true (-100) 1000) | "su32" => some (.scoped 32 false 7 4000000000)
   | _ => if s.startsWith "p" then (s.drop 1).toString.toNat?.bind (fun n => if 1 ≤ n ∧ n ≤ 32 then some (.packed n) else none) else none
 
 def Ch.minV : Ch → Int
-  | .i8 => -128 | .i16 => -32768 | .i32 => -2147483648 | _ => 0
+  | .i8 => -128 | .i16 => -32768 | .i32 => -2147483648 | .scoped _ _ lo _ => lo | _ => 0
 def Ch.maxV : Ch → Int
   | .u8 => 255 | .u16 => 65535 | .u32 => 4294967295
   | .i8 => 127 | .i16 => 32767 | .i32 => 2147483647
   | .packed n => 2 ^ n - 1
+  | .scoped _ _ _ hi => hi
 
 /-- base (carrier) type width of packed_channel_value<n>: min_fast_uint -/
 def packedCarrier (n : Nat) : Nat := if n ≤ 8 then 8 else if n ≤ 16 then 16 else 32
@@ -51,6 +55,7 @@ def mul : Ch → Int → Int → Int
   | .i16, a, b => from_unsigned_i16 (mul_u16 (to_unsigned_i16 a) (to_unsigned_i16 b))
   | .i32, a, b => from_unsigned_i32 (mulgen_u32 (to_unsigned_i32 a) (to_unsigned_i32 b) 4294967295)
   | .packed n, a, b => mulPacked n a b
+  | .scoped .., _, _ => 0     -- channel_multiply is not exercised on scoped channels
 
 /-- channel_invert -/
 def invert (c : Ch) (x : Int) : Int :=
@@ -61,6 +66,10 @@ def invert (c : Ch) (x : Int) : Int :=
   | .i8 => invert_i8 x c.maxV c.minV
   | .i16 => invert_i16 x c.maxV c.minV
   | .i32 => invert_i32 x c.maxV c.minV
+  | .scoped bits signed lo hi =>   -- the base type's kernel with the scoped minimum and maximum
+    match bits, signed with
+    | 8, false => invert_u8 x hi lo | 16, false => invert_u16 x hi lo | 32, false => invert_u32 x hi lo
+    | 8, true => invert_i8 x hi lo | 16, true => invert_i16 x hi lo | _, _ => invert_i32 x hi lo
   | .packed n =>   -- base type uint8/16/32_t; the packed_channel_value constructor then masks
     let r := match packedCarrier n with
       | 8 => invert_u8 x c.maxV 0
